@@ -18,6 +18,8 @@ Record sudo_step := mk_sudo_step { ss_add : bool; ss_cs : list Z; ss_ok : bool; 
 
 Inductive case :=
 | CDiff (replicas : list (list nat))                       (* replica differential: canonical ids per replica *)
+        (preante : list (list nat))   (* same for the GasUsed of txs rejected before the ante handler (own channel) *)
+        (strict : bool)               (* whether that channel counts (see README: finding "pre-ante gas after restart") *)
 | CSudo (init : list Z) (steps : list sudo_step)           (* sudo sub-model *)
 | COmap (ops : list (omap_op * list Z))                    (* omap sub-model: op, Keys() afterwards *)
 | CSortedKeys (inp out : list Z)                           (* statedb.Storage.SortedKeys *)
@@ -48,7 +50,7 @@ Definition opt_to_z (o : option Z) : Z := match o with Some n => n | None => -1 
 
 Definition mismatch (c : cfg) (k : case) : bool :=
   match k with
-  | CDiff _ => false    (* the model's prediction for a differential is "all equal": that is [violates] *)
+  | CDiff _ _ _ => false    (* the model's prediction for a differential is "all equal": that is [violates] *)
   | CSudo init steps => negb (both (fun π => negb (sudo_mismatch c π init steps)))
   | COmap ops => negb (both (fun π => negb (omap_mismatch c π (mk_omap [] []) ops)))
   | CSortedKeys inp out =>
@@ -62,7 +64,7 @@ Definition mismatch (c : cfg) (k : case) : bool :=
 (** the property predicate on the OBSERVED values *)
 Definition violates (k : case) : bool :=
   match k with
-  | CDiff t => negb (Pb (ODiff t))
+  | CDiff t p strict => negb (Pb (ODiff t)) || (strict && negb (Pb (ODiff p)))
   | CSudo _ steps => existsb (fun s => negb (Pb (OStored (ss_after s)))) steps
   | CAbi abi _ => negb (Pb (OSelectors (map snd abi)))
   | COmap ops => existsb (fun o => negb (Pb (OStored (snd o)))) ops   (* Keys() is the sorted enumeration *)
